@@ -1,2 +1,128 @@
+//! C03 — BBS proof completeness for every disclosure choice.
+
+use crate::api::*;
 use crate::common::*;
-pub fn scenarios(_ctx: &Ctx) -> Vec<Scenario> { vec![] }
+use serde_json::json;
+
+fn subsets_for(r: &mut impl rand::RngCore, l: usize, exhaustive_upto: usize) -> Vec<Vec<usize>> {
+    if l <= exhaustive_upto {
+        return all_subsets(l);
+    }
+    if l >= 512 {
+        return vec![vec![], (0..l).collect(), (0..l).step_by(2).collect(), (0..l).filter(|_| r.next_u32() % 3 == 0).collect()];
+    }
+    let mut v: Vec<Vec<usize>> = vec![
+        vec![],
+        (0..l).collect(),
+        vec![0],
+        vec![l - 1],
+        (0..l - 1).collect(),
+        (1..l).collect(),
+        (0..l).step_by(2).collect(),
+        (1..l).step_by(2).collect(),
+    ];
+    for _ in 0..8 {
+        let d: Vec<usize> = (0..l).filter(|_| r.next_u32() % 2 == 0).collect();
+        v.push(d);
+    }
+    v
+}
+
+fn one<X: Sx>(ctx: &Ctx, idx: u64, l: usize, exhaustive_upto: usize) {
+    let mut r = ctx.rng("c03", idx);
+    let (sk, pk) = keypair::<X>(&mut r);
+    let msgs = gen_messages(&mut r, l, idx as usize);
+    let hdr = Hdr::gen(&mut r, &[1, 16, 300]);
+    let Some(sig) = ctx.call("sign", "honest", None, || Sig::<X>::sign(Some(&msgs), &sk, &pk, hdr.as_opt())).value else {
+        ctx.inconclusive("C03: honest sign failed (C01's business)");
+        return;
+    };
+    let sigb = sig.to_bytes();
+    let subsets = subsets_for(&mut r, l, exhaustive_upto);
+    for (k, d) in subsets.iter().enumerate() {
+        let ph = match (k + idx as usize) % 4 {
+            0 => Hdr::Absent,
+            1 => Hdr::Empty,
+            2 => Hdr::Bytes(rand_bytes(&mut r, 32)),
+            _ => { let n = 1 + rand_range(&mut r, 400); Hdr::Bytes(rand_bytes(&mut r, n)) }
+        };
+        let u = l - d.len();
+        let mask: String = if l <= 16 { (0..l).map(|i| if d.contains(&i) { '1' } else { '0' }).collect() } else { format!("R{}", d.len()) };
+        let case = format!("{}/L{}/D={}/hdr={}/ph={}", name::<X>(), l, mask, hdr.class(), ph.class());
+        ctx.distinct(&case);
+        let d_opt: Option<&[usize]> = if d.is_empty() && k % 2 == 0 { None } else { Some(d) };
+        let m_opt: Option<&[Vec<u8>]> = if l == 0 && k % 2 == 0 { None } else { Some(&msgs) };
+        let g = ctx.call("proof_gen", &case, None, || Pok::<X>::proof_gen(&pk, &sigb, hdr.as_opt(), ph.as_opt(), m_opt, d_opt));
+        let detail = || json!({"case":case,"sk":hx(&sk.to_bytes()),"header":hx(hdr.octets()),"ph":hx(ph.octets()),"messages":msgs_json(&msgs),"disclosed":d,"sig":hx(&sigb)});
+        let Some(proof) = g.value else {
+            ctx.violation("C03:proof_gen-failed", json!({"outcome":g.outcome.short(),"d":detail()}));
+            continue;
+        };
+        // the production randomness path must have run: 5 + U draws
+        if g.draws.len() != 5 + u {
+            ctx.violation("C03:unexpected-rng-draw-count", json!({"draws":g.draws.len(),"expected":5+u,"d":detail()}));
+        }
+        let pb = proof.to_bytes();
+        if pb.len() != 272 + 32 * u {
+            ctx.violation("C03:proof-length", json!({"len":pb.len(),"expected":272+32*u,"d":detail()}));
+        }
+        let dm: Vec<Vec<u8>> = d.iter().map(|&i| msgs[i].clone()).collect();
+        let dm_opt: Option<&[Vec<u8>]> = if dm.is_empty() && k % 2 == 0 { None } else { Some(&dm) };
+        let v = ctx.call("proof_verify", &case, None, || proof.proof_verify(&pk, dm_opt, d_opt, hdr.as_opt(), ph.as_opt()));
+        if !v.outcome.is_ok() {
+            ctx.violation("C03:honest-proof-rejected", json!({"outcome":v.outcome.short(),"proof":hx_full(&pb),"d":detail()}));
+        }
+        let dec = ctx.call("from_bytes", &case, None, || Pok::<X>::from_bytes(&pb));
+        match dec.value {
+            Some(p2) => {
+                if p2 != proof || p2.to_bytes() != pb {
+                    ctx.violation("C03:roundtrip-differs", json!({"proof":hx_full(&pb),"d":detail()}));
+                }
+                let v = ctx.call("proof_verify", &case, None, || p2.proof_verify(&pk, dm_opt, d_opt, hdr.as_opt(), ph.as_opt()));
+                if !v.outcome.is_ok() {
+                    ctx.violation("C03:decoded-proof-rejected", json!({"outcome":v.outcome.short(),"proof":hx_full(&pb),"d":detail()}));
+                }
+            }
+            None => ctx.violation("C03:decode-failed", json!({"outcome":dec.outcome.short(),"proof":hx_full(&pb),"d":detail()})),
+        }
+        if k == 1 {
+            ctx.sample(json!({"case":case,"disclosed":d,"proof_len":pb.len(),"rng_draws":g.draws.len(),"verify":"Ok"}));
+        }
+    }
+    ctx.count("signatures", 1);
+}
+
+pub fn scenarios(ctx: &Ctx) -> Vec<Scenario> {
+    let mut v = Vec::new();
+    let mut idx = 0u64;
+    let ex = ctx.t(8usize, 11usize);
+    let mut ls: Vec<(usize, usize)> = Vec::new(); // (L, repetitions)
+    for l in 0..=ex {
+        ls.push((l, if l <= 5 { ctx.t(3, 8) } else { 1 }));
+    }
+    for &l in ctx.t(&[16usize, 64, 257][..], &[12usize, 16, 33, 64, 100, 255, 256, 257, 1000][..]) {
+        ls.push((l, ctx.t(1, 2)));
+    }
+    if ctx.quick() {
+        ls.push((1000, 1));
+    }
+    ls.reverse();
+    for (l, reps) in ls {
+        for rep in 0..reps {
+            let i = idx;
+            idx += 1;
+            if l == 1000 && ctx.quick() {
+                // one suite each for the largest size in quick
+                if rep % 2 == 0 {
+                    v.push(scenario(format!("sha/L{l}"), move |c| one::<Sha>(c, i, l, ex)));
+                } else {
+                    v.push(scenario(format!("shake/L{l}"), move |c| one::<Shake>(c, i, l, ex)));
+                }
+                continue;
+            }
+            v.push(scenario(format!("sha/L{l}/r{rep}"), move |c| one::<Sha>(c, i, l, ex)));
+            v.push(scenario(format!("shake/L{l}/r{rep}"), move |c| one::<Shake>(c, i, l, ex)));
+        }
+    }
+    v
+}
